@@ -42,9 +42,58 @@ class Double:
         return 2.0 * x
 
 
+class Abs:
+    """|x-y|, identity result and settings values (class form, like Cubic)."""
+
+    @staticmethod
+    def inner_dist(x, y):
+        return abs(x - y)
+
+    @staticmethod
+    def result(x):
+        return x
+
+    @staticmethod
+    def inner_val(x):
+        return x
+
+
+def _power(p):
+    from dtaidistance.innerdistance import CustomInnerDist
+
+    class Power(CustomInnerDist):
+        """|x-y|**p: several *instances* of one class that differ only in their parameter."""
+
+        def __init__(self, p):
+            self.p = p
+
+        def inner_dist(self, x, y):
+            return abs(x - y) ** self.p
+
+        def result(self, x):
+            if hasattr(x, 'shape'):
+                import numpy as np
+                return np.power(x, 1.0 / self.p)
+            return x if math.isinf(x) else x ** (1.0 / self.p)
+
+        def inner_val(self, x):
+            return x ** self.p
+    global _POWER
+    if _POWER is None:
+        _POWER = Power
+    return _POWER(p)
+
+
+_POWER = None
+
+
 def lib_inner(name):
     if name == 'custom_cubic':
         return Cubic
+    if name == 'custom_abs':
+        return Abs
+    if name.startswith('custom_pow'):
+        return _power(float(name[len('custom_pow'):]))
     if name == 'custom_double':
         # an *instance* of a CustomInnerDist subclass: the other documented way of passing one
         from dtaidistance.innerdistance import CustomInnerDist
